@@ -51,6 +51,8 @@ Inductive eop :=
 | EUnreachable (peers : list nat)
 | EFailAppend (n k : nat)
 | ECheck (n : nat)
+| ENoop (c : string)                                  (* a packet Process has no case for (CONNACK, SUBACK, PINGRESP, QoS 3 ...) *)
+| EBadConnect (n : nat) (c : string)                 (* a first packet that is not a decodable CONNECT *)
 | EPanic.
 
 (** * one node *)
@@ -464,6 +466,9 @@ Definition step_raw (seen : seen_t) (cl : cluster) (o : eop) : cluster * list eo
   | EUnreachable ps => (Cluster (cl_nodes cl) (cl_conns cl) (cl_bad cl) ps (cl_deliv cl) (cl_next cl), [])
   | EFailAppend n k => (setn cl n (set_fail (getn cl n) k), [])
   | ECheck n => (cl, [listed cl n])
+  | ENoop c => with_session cl c (fun k i n s => (cl, dl s))
+  | EBadConnect n c =>
+    (Cluster (cl_nodes cl) (cl_conns cl ++ [Conn c n None true])%list (cl_bad cl) (cl_down cl) (cl_deliv cl) (cl_next cl), [Closed c])
   | EPanic => (cl, [])
   end.
 Definition step (seen : seen_t) (cl : cluster) (o : eop) : cluster * list eobs :=
